@@ -47,7 +47,14 @@ fn phase_of<T: Clock, P: Props, F: Completion>(g: &SpanGuard<T, P, F>) -> u8 {
     }
 }
 
-#[cfg(kani)]
+#[cfg(not(kani))]
+include!(concat!(env!("EMIT_RS_EMIT_VERIF_DIR"), "/kani/shim.rs"));
+#[cfg(not(kani))]
+pub fn set_values(v: Vec<Vec<u8>>) {
+    kani::set_values(v)
+}
+pub use proofs::run;
+
 mod proofs {
     use super::*;
 
@@ -66,7 +73,7 @@ mod proofs {
     }
 
     /// start: Initial -> Started, otherwise nothing; never fires; data / enabled untouched.
-    #[kani::proof]
+    #[cfg_attr(kani, kani::proof)]
     fn c05_start_contract() {
         let clk = Clk(None);
         let c = Cell::new(0u32);
@@ -83,7 +90,7 @@ mod proofs {
 
     /// with_completion: the new guard has the old (phase, has_data, enabled); neither completion fires;
     /// the replaced guard is inert (its Drop runs inside the method).
-    #[kani::proof]
+    #[cfg_attr(kani, kani::proof)]
     fn c05_with_completion_contract() {
         let clk = Clk(None);
         let c1 = Cell::new(0u32);
@@ -100,7 +107,7 @@ mod proofs {
     }
 
     /// with_mdl / with_name: builders preserve the abstract state and fire nothing.
-    #[kani::proof]
+    #[cfg_attr(kani, kani::proof)]
     fn c05_with_mdl_name_contract() {
         let clk = Clk(None);
         let c = Cell::new(0u32);
@@ -116,7 +123,7 @@ mod proofs {
     }
 
     /// map_props / with_props: state preserved, nothing fires, the mapping runs iff there is data.
-    #[kani::proof]
+    #[cfg_attr(kani, kani::proof)]
     fn c05_map_props_contract() {
         let clk = Clk(None);
         let c = Cell::new(0u32);
@@ -140,7 +147,7 @@ mod proofs {
     }
 
     /// complete: fires exactly one completion iff (Started, data, enabled) and returns that boolean.
-    #[kani::proof]
+    #[cfg_attr(kani, kani::proof)]
     fn c05_complete_contract() {
         let clk = Clk(None);
         let c = Cell::new(0u32);
@@ -154,7 +161,7 @@ mod proofs {
 
     /// complete_with: the given completion fires exactly once iff (Started, data, enabled);
     /// the guard's own completion never fires (not even from the Drop inside the method).
-    #[kani::proof]
+    #[cfg_attr(kani, kani::proof)]
     fn c05_complete_with_contract() {
         let clk = Clk(None);
         let c1 = Cell::new(0u32);
@@ -169,7 +176,7 @@ mod proofs {
     }
 
     /// drop: fires exactly once iff (Started, data, enabled).
-    #[kani::proof]
+    #[cfg_attr(kani, kani::proof)]
     fn c05_drop_contract() {
         let clk = Clk(None);
         let c = Cell::new(0u32);
@@ -183,7 +190,7 @@ mod proofs {
 
     /// complete_default leaves the guard inert: (Completed, no data, disabled); a second completion
     /// and the final Drop fire nothing - "exactly once".
-    #[kani::proof]
+    #[cfg_attr(kani, kani::proof)]
     fn c05_complete_default_leaves_inert() {
         let clk = Clk(None);
         let c = Cell::new(0u32);
@@ -197,5 +204,21 @@ mod proofs {
         drop(g);
         assert!(c.get() == if should_fire(&p) { 1 } else { 0 });
         kani::cover!(true);
+    }
+
+    // ---- replay table (generated by tools/mktable.py) ----
+    pub fn run(name: &str) -> bool {
+        match name {
+            "c05_start_contract" => c05_start_contract(),
+            "c05_with_completion_contract" => c05_with_completion_contract(),
+            "c05_with_mdl_name_contract" => c05_with_mdl_name_contract(),
+            "c05_map_props_contract" => c05_map_props_contract(),
+            "c05_complete_contract" => c05_complete_contract(),
+            "c05_complete_with_contract" => c05_complete_with_contract(),
+            "c05_drop_contract" => c05_drop_contract(),
+            "c05_complete_default_leaves_inert" => c05_complete_default_leaves_inert(),
+            _ => return false,
+        }
+        true
     }
 }
